@@ -1,5 +1,7 @@
 """Driver: builds, runs scenario processes, classifies outcomes, writes evidence."""
 import os, sys, json, time, subprocess, re, glob, shutil, struct, threading
+
+UNION_MAX = 1 << 24     # distinct non-trivial signatures kept when merging the per-process sets; beyond it the count is a lower bound
 from concurrent.futures import ThreadPoolExecutor
 from . import build
 from .build import VERIF
@@ -320,6 +322,7 @@ class Run:
         counters, sites, samples = {}, {}, []
         steps = switches = faults = 0
         nt_hashes = set()
+        capped = False
         distinct_sum = 0
         wv = wt = 0
         per_group = []
@@ -334,6 +337,7 @@ class Run:
                     switches += s.get('switches', 0)
                     faults += s.get('faults_fired', 0)
                     distinct_sum += s.get('distinct', 0)
+                    capped = capped or bool(s.get('distinct_capped'))
                     wv = max(wv, s.get('word_values_seen', 0))
                     wt = max(wt, s.get('word_transitions_seen', 0))
                     for k, v in s.get('counters', {}).items():
@@ -345,11 +349,18 @@ class Run:
                             counters[k[2:]] = counters.get(k[2:], 0) + v
                     if len(samples) < 5 and s.get('samples'):
                         samples.append(dict(scenario=s['scenario'], config=s['config'], seed=s['seed'], **s['samples'][0]))
+                salt = hash((g['scen'], g['mode'], g['variant'])) & 0xffffffffffffffff
                 for hf in p.hash_files:
+                    if len(nt_hashes) >= UNION_MAX:
+                        capped = True
+                        break
                     try:
-                        data = open(hf, 'rb').read()
-                        for (h,) in struct.iter_unpack('<Q', data[:len(data) // 8 * 8]):
-                            nt_hashes.add((g['scen'], g['mode'], g['variant'], h))
+                        with open(hf, 'rb') as fh:
+                            while len(nt_hashes) < UNION_MAX:
+                                data = fh.read(1 << 20)
+                                if not data:
+                                    break
+                                nt_hashes.update(h ^ salt for (h,) in struct.iter_unpack('<Q', data[:len(data) // 8 * 8]))
                     except OSError:
                         pass
             ev += grounds
@@ -360,7 +371,7 @@ class Run:
             ev = int(counters[evk])
         present = build.count_atm_sites()
         hit = set(sites)
-        cov = dict(evaluations=ev, distinct_nontrivial=len(nt_hashes), rule=rule, samples=samples,
+        cov = dict(evaluations=ev, distinct_nontrivial=len(nt_hashes), distinct_nontrivial_is_lower_bound=capped, rule=rule, samples=samples,
                    groups=per_group, counters=counters, atomic_steps=steps, context_switches=switches,
                    injected_futex_faults_fired=faults,
                    atm_sites_present=len(present), atm_sites_hit=len(hit & present) if present else len(hit),
